@@ -72,10 +72,14 @@ class Value:
         else:
             if isinstance(denominator, str):
                 dens = [den for den, symb in NETWORK_DENOMINATORS.items() if symb == denominator]
-                if dens:
-                    denominator = dens[0]
-            value = value * (network.denominator / denominator)
-        return cls(value or 0, denominator, network)
+                if not dens:
+                    raise ValueError("Denominator not found in NETWORK_DENOMINATORS definition")
+                denominator = dens[0]
+        # The amount is kept in coins whatever the unit it is shown in: converting it to the requested unit and
+        # back costs two more float roundings, which made large amounts off by one satoshi
+        value_object = cls(value or 0, network.denominator, network)
+        value_object.denominator = denominator
+        return value_object
 
     def __init__(self, value, denominator=None, network=DEFAULT_NETWORK):
         """
